@@ -461,7 +461,7 @@ func c06FieldAlternatives(kind string) []kv {
 func c06RewriteSub() *engine.Sub {
 	return &engine.Sub{
 		Name:  "structured-rewrites",
-		Rule:  "envelopes rebuilt with the harness' own assembler: every payload field replaced by every alternative value or dropped while keeping the old signature; the same SigPayload signed by another key of the same and of every other algorithm; signed by the issuer and by another key of its algorithm with the signature in the other encodings of its family (ECDSA: fixed-width r||s, s||r, DER; secp256k1 additionally the 65-byte compact recoverable form with every header byte class; Ed25519/RSA: reversed and doubled); the header replaced by every other algorithm's header, truncated, extended, emptied, or given another payload-encoding segment (DAG-JSON, raw, DAG-PB, CBOR), with the old signature, re-signed by the issuer, and - DAG-JSON - signed by the issuer over the DAG-JSON form of the SigPayload; the signature truncated to every length, emptied, extended; signature and header taken from another valid token of the same issuer; a forged payload (other audience / command) that embeds the genuine signature followed by the genuine signed bytes in its nonce or metadata, under the genuine signature; an issuer string that names the victim followed by '#', '?', '/' and another key or DID, signed by that other key. Every decoder - including the container readers, with and without such a 'pinning' invocation next to the entry - must reject, or return the original content with an independently verifiable signature; non-trivial = all",
+		Rule:  "envelopes rebuilt with the harness' own assembler: every payload field replaced by every alternative value or dropped while keeping the old signature; the same SigPayload signed by another key of the same and of every other algorithm; signed by the issuer and by another key of its algorithm with the signature in the other encodings of its family (ECDSA: fixed-width r||s, s||r, DER; secp256k1 additionally the 65-byte compact recoverable form with every header byte class; Ed25519/RSA: reversed and doubled); the header replaced by every other algorithm's header, truncated, extended, emptied, or given another payload-encoding segment (DAG-JSON, raw, DAG-PB, CBOR), with the old signature, re-signed by the issuer, and - DAG-JSON - signed by the issuer over the DAG-JSON form of the SigPayload; the signature truncated to every length, emptied, extended; signature and header taken from another valid token of the same issuer; a forged payload (other audience / command) that embeds the genuine signature followed by the genuine signed bytes in its nonce or metadata, under the genuine signature; the forged payload under a signature element that carries the genuine signature next to the bytes it signs (6 layouts), and under every small well-formed DER SEQUENCE{INTEGER r, INTEGER s} with r, s over 8 short contents (empty included, short and long length form) and constant strings of the usual signature lengths; an issuer string that names the victim followed by '#', '?', '/' and another key or DID, signed by that other key. Every decoder - including the container readers, with and without such a 'pinning' invocation next to the entry - must reject, or return the original content with an independently verifiable signature; non-trivial = all",
 		Bound: func(t string) string { return "2 kinds x 6 (quick) / 7 (thorough) algorithms" },
 		Gen: func(tier string, emit func(any) bool) {
 			algs := []string{"ed25519", "secp256k1", "p256", "p384", "p521", "rsa2048"}
@@ -498,6 +498,20 @@ func c06RewriteSub() *engine.Sub {
 					// the genuine signature and the genuine signed bytes embedded in a forged payload (signature wrapping)
 					for _, where := range []string{"nonce-tail", "nonce-head", "meta-bytes", "meta-string"} {
 						if !emit(&c06RewriteCase{Kind: kind, Alg: alg, Rw: "genuine-signed-bytes-embedded", Arg: where}) {
+							return
+						}
+					}
+					// a forged payload under a signature element that carries the genuine signature next to the bytes it signs
+					// ("combined mode" of NaCl-style libraries), or next to the forged bytes, or the genuine one doubled
+					for _, lay := range []string{"sig+signed", "signed+sig", "sig+forged", "forged+sig", "sig+sig+signed", "sig+envelope"} {
+						if !emit(&c06RewriteCase{Kind: kind, Alg: alg, Rw: "signature-carries-message", Arg: lay}) {
+							return
+						}
+					}
+					// a forged payload under every small well-formed DER SEQUENCE { INTEGER r, INTEGER s } (r, s over 8 short
+					// contents, empty included; short and long length forms) and under constant strings of the usual signature lengths
+					for n := 0; n < c06DegenerateCount; n++ {
+						if !emit(&c06RewriteCase{Kind: kind, Alg: alg, Rw: "signature-degenerate", N: n}) {
 							return
 						}
 					}
@@ -643,6 +657,40 @@ func c06RewriteSub() *engine.Sub {
 					es = append(es, kv{"meta", nMap(kv{"z", nStr(string(blob))})})
 				}
 				mutated = assembleWithSig(p.Sig, sigPayloadNode(p.Header, p.Tag, payload(es)))
+			case "signature-carries-message", "signature-degenerate":
+				genuine := mustEncodeCbor(sigPayloadNode(p.Header, p.Tag, payload(p.Payload)))
+				other := fixtures.Get("ed25519", 3).DID.String()
+				var es []kv
+				for _, e := range p.Payload {
+					switch {
+					case e.K == "aud" || (e.K == "sub" && cs.Kind == "inv"):
+						es = append(es, kv{e.K, nStr(other)})
+					case e.K == "cmd":
+						es = append(es, kv{"cmd", nStr("/forged")})
+					default:
+						es = append(es, e)
+					}
+				}
+				fsp := sigPayloadNode(p.Header, p.Tag, payload(es))
+				forged := mustEncodeCbor(fsp)
+				var sig []byte
+				if cs.Rw == "signature-degenerate" {
+					sig = c06DegenerateSig(cs.N)
+				} else {
+					for _, part := range strings.Split(cs.Arg, "+") {
+						switch part {
+						case "sig":
+							sig = append(sig, p.Sig...)
+						case "signed":
+							sig = append(sig, genuine...)
+						case "forged":
+							sig = append(sig, forged...)
+						case "envelope":
+							sig = append(sig, orig...)
+						}
+					}
+				}
+				mutated = assembleWithSig(sig, fsp)
 			case "iss-decorated/other-key", "iss-decorated/issuer":
 				signer := key
 				otherKey := fixtures.Get(cs.Alg, 0)
@@ -855,4 +903,31 @@ func C06() *engine.Check {
 			"a modification that only changes the encoding (accepted with identical content) is C08's business",
 		},
 	}
+}
+
+// Degenerate signatures: every DER SEQUENCE { INTEGER r, INTEGER s } with r, s over 8 short contents (short form,
+// and with the sequence length in the long form 81 nn), then constant strings of the usual signature lengths.
+var c06DerInts = [][]byte{{}, {0x00}, {0x01}, {0x01, 0x01}, {0x7f}, {0x80}, {0x00, 0x80}, {0xff}}
+
+var c06ConstLens = []int{8, 32, 64, 65, 70, 71, 72, 96, 104, 132, 139, 256, 384}
+
+var c06DegenerateCount = 2*len(c06DerInts)*len(c06DerInts) + 3*len(c06ConstLens)
+
+func c06DegenerateSig(n int) []byte {
+	k := len(c06DerInts)
+	if n < 2*k*k {
+		long := n >= k*k
+		n %= k * k
+		r, s := c06DerInts[n/k], c06DerInts[n%k]
+		body := append([]byte{0x02, byte(len(r))}, r...)
+		body = append(body, 0x02, byte(len(s)))
+		body = append(body, s...)
+		if long {
+			return append([]byte{0x30, 0x81, byte(len(body))}, body...)
+		}
+		return append([]byte{0x30, byte(len(body))}, body...)
+	}
+	n -= 2 * k * k
+	l := c06ConstLens[n/3]
+	return bytes.Repeat([]byte{[3]byte{0x00, 0x01, 0xff}[n%3]}, l)
 }
